@@ -172,7 +172,7 @@ def run(tier, seed, flavour="plain", prop="C07"):
     # (2) the running conversions
     od = core.run_dir(prop, tier)
     res = core.run_sharded([{"name": "c07_coherence", "binary": paths["c07_coherence"], "nshards": core.NCPU, "out": od,
-                             "args": ["--seed", str(seed), "--tier", tier] + core.deep(tier, values=600000),
+                             "args": ["--seed", str(seed), "--tier", tier] + core.deep(tier, values=600000) + core.boost(tier, flavour, values=16000),
                              "env": core.SAN_ENV if flavour == "san" else None}], timeout=3600)
     V.absorb(res)
     m = core.merge_summaries(res)
